@@ -1,3 +1,3 @@
 """Manifest data that is not per-property (per-property texts live in units.d/<ID>.json)."""
-HOOK_COMMITS = ["062389c", "c056251"]
+HOOK_COMMITS = ["062389c", "c056251", "963a2ee"]
 NOT_APPLICABLE = []
